@@ -29,7 +29,7 @@ class Routed(LiveDispatcher):
         p = self.plan.get(doc["uid"])
         if p is None:
             return
-        new = {"data": doc["data"], "descriptor": doc["descriptor"]}
+        new = dict(doc)          # like the contract's harness: the document still has the raw uid / seq_num / time / timestamps
         new.update(p.get("extra", {}))
         self.process_event(new, **p["kw"])
 
@@ -61,7 +61,9 @@ def oracle(docs, stream_of):
         bad.append(f"not exactly one closing RunStop: {[n for n, d in docs]}")
     else:
         want = {s: len(v) for s, v in per_stream.items()}
-        if stops[0].get("num_events") != want or stops[0].get("run_start") != suid:
+        ne = stops[0].get("num_events")
+        same = isinstance(ne, dict) and all(ne.get(s, 0) == want.get(s, 0) for s in set(ne) | set(want))   # not listed: 0 events
+        if not same or stops[0].get("run_start") != suid:
             bad.append(f"stop.num_events={stops[0].get('num_events')} but events handed over per stream={want}")
     return bad
 
@@ -78,7 +80,14 @@ class Second:
             if mode == "subscriber":
                 raise RuntimeError("a subscriber failed")
             if mode == "reenter":
-                self.ld.process_event({"data": {"x": 5.0}, "descriptor": "raw1"}, stream_name="a")
+                self.ld.process_event({"uid": "fed-back", "data": {"x": 5.0}, "timestamps": {"x": 0.0}, "descriptor": "raw1",
+                                       "seq_num": 99, "time": 0.0, "filled": {}}, stream_name="a")
+
+
+def exit_status(model, name):
+    """the raw RunStop's exit status as in the counter-model (any of the three legal values)"""
+    v = get(model, name, "str", "success")
+    return v if v in ("success", "abort", "fail") else "success"
 
 
 def _raw_descriptors(ld):
@@ -117,7 +126,7 @@ def live_dispatcher(model, info, art):
         data = dict.fromkeys(keys, 1.0)
         ld.plan[uid] = plan
         try:
-            ld.event({"uid": uid, "descriptor": raw, "data": data, "timestamps": dict.fromkeys(keys, 0.0), "seq_num": seq[0],
+            ld.event({"uid": uid, "descriptor": raw, "data": data, "timestamps": dict.fromkeys(keys, 0.0), "seq_num": seq[0] + 100,
                       "time": 0.0, "filled": {}})
         except Exception as e:        # what the RunEngine does with RE.ignore_callback_exceptions = True: log and go on
             errors.append(f"{type(e).__name__}")
@@ -156,14 +165,16 @@ def live_dispatcher(model, info, art):
         feed("b", ("y",), {"kw": {"stream_name": "b"}})
         what += ", then one event in a and one in b"
     raw_ne = dict(raw_counts)
-    ld.stop({"uid": "stop", "run_start": "raw-start", "exit_status": "success", "time": 0.0, "reason": "", "num_events": dict(raw_ne)})
+    ld.stop({"uid": "stop", "run_start": "raw-start", "exit_status": exit_status(model, "exit_status"), "time": 0.0, "reason": "",
+             "num_events": dict(raw_ne)})
     stream_of = lambda d: STREAM_OF_KEY[[k for k in d["data"] if k in STREAM_OF_KEY][0]]  # noqa: E731
     n_first = len(out)
     # the next run through the same dispatcher starts from zero (state reset clause)
     ld.start({"uid": "raw-start-2", "time": 0.0})
     _raw_descriptors(ld)
     feed("a", ("x",), {"kw": {"stream_name": "a"}})
-    ld.stop({"uid": "stop2", "run_start": "raw-start-2", "exit_status": "success", "time": 0.0, "reason": "", "num_events": {"primary": 1}})
+    ld.stop({"uid": "stop2", "run_start": "raw-start-2", "exit_status": exit_status(model, "exit_status_2"), "time": 0.0, "reason": "",
+             "num_events": {"primary": 1}})
     second_run, out = out[n_first:], out[:n_first]
     bad = oracle(out, stream_of) + ["next run: " + b for b in oracle(second_run, stream_of)]
     per = {}
